@@ -106,7 +106,7 @@ def tsStart : Ast.Tok → Bool
   | .name w => !(w == "query".toList || w == "mutation".toList || w == "subscription".toList || w == "fragment".toList)
   | _ => false
 
-theorem looseDef_head (l : LooseDef) : l.toks.head?.map tsStart = some true := by
+theorem looseDef_tsStart (l : LooseDef) : l.toks.head?.map tsStart = some true := by
   cases l with
   | scalar desc nm ds => cases desc <;> rfl
   | object desc nm impl ds fs => cases desc <;> rfl
@@ -226,7 +226,7 @@ theorem tr_other {H : List Tok → Prop} (K : SK) (m body : PI Unit) (hm : m = w
     Tr NoE H m (fun _ => ExecOrOther) := by
   refine (tr_node_of_acc K m body hm h).mono (fun _ h => h) ?_
   rintro _ cs e ⟨⟨inner, he⟩, x, hx, l, rfl⟩
-  exact Or.inr ⟨K, inner, l.toks, he, hk1, hk2, hx, looseDef_head l⟩
+  exact Or.inr ⟨K, inner, l.toks, he, hk1, hk2, hx, looseDef_tsStart l⟩
 
 theorem execDefTrs (n : Nat) : DefTrs n ExecOrOther where
   directive := tr_other "DIRECTIVE_DEFINITION" _ _ rfl (loose_directive n) (by decide) (by decide)
